@@ -34,13 +34,13 @@ def hist_counts(entries, edges=HIST_EDGES):
 
 
 class FitWorld(object):
-    def __init__(self, ftype, cost, model="lin", v=0, n=5, minimizer="iminuit", dea="nonlinear", poisson_data=None, gen=None, yscale=1.0):
+    def __init__(self, ftype, cost, model="lin", v=0, n=5, minimizer="iminuit", dea="nonlinear", poisson_data=None, gen=None, yscale=1.0, xscale=1.0):
         import kafe2
 
         self.k2 = kafe2
         self.ftype, self.cost_id, self.model_key, self.v, self.n = ftype, cost, model, v, n
         self.minimizer, self.dea = minimizer, dea
-        self.val = V(v, n, yscale=yscale)
+        self.val = V(v, n, yscale=yscale, xscale=xscale)
         self.gen = gen  # (truth parameter list, noise scale): y data generated from the model plus fixed pseudo-noise
         fam, var = ref.cost_family(cost)
         self.poisson = (fam in ("nll", "nllr") and var == "poisson") or fam == "ga" if poisson_data is None else poisson_data
@@ -80,18 +80,25 @@ class FitWorld(object):
         k2 = self.k2
         x, y = self._data_arrays("base")
         kw = dict(minimizer=self.minimizer)
+        cost = self.cost_id
+        if cost == "chi2:nodet":  # a cost function object with a non-default flag
+            from kafe2.fit.histogram.cost import HistCostFunction_Chi2
+            from kafe2.fit.indexed.cost import IndexedCostFunction_Chi2
+            from kafe2.fit.xy.cost import XYCostFunction_Chi2
+
+            cost = {"xy": XYCostFunction_Chi2, "indexed": IndexedCostFunction_Chi2, "hist": HistCostFunction_Chi2}[self.ftype](add_determinant_cost=False)
         with warnings.catch_warnings():
             warnings.simplefilter("ignore")
             if self.ftype == "xy":
                 self.fn = ref.MODELS[self.model_key]
-                self.fit = k2.XYFit([x, y], self.fn, cost_function=self.cost_id, dynamic_error_algorithm=self.dea, **kw)
+                self.fit = k2.XYFit([x, y], self.fn, cost_function=cost, dynamic_error_algorithm=self.dea, **kw)
             elif self.ftype == "indexed":
                 self.fn = ref.make_idx_ad(self.n) if self.model_key == "idx_ad" else ref.make_indexed_model(self.n, 3 if self.model_key == "idx3" else 2)
-                self.fit = k2.IndexedFit(y, self.fn, cost_function=self.cost_id, dynamic_error_algorithm=self.dea, **kw)
+                self.fit = k2.IndexedFit(y, self.fn, cost_function=cost, dynamic_error_algorithm=self.dea, **kw)
             elif self.ftype == "hist":
                 self.fn = ref.normal_density
                 c = k2.HistContainer(n_bins=len(HIST_EDGES) - 1, bin_range=(HIST_EDGES[0], HIST_EDGES[-1]), bin_edges=list(HIST_EDGES), fill_data=list(y))
-                self.fit = k2.HistFit(c, self.fn, cost_function=self.cost_id, bin_evaluation=ref.normal_cdf, dynamic_error_algorithm=self.dea, **kw)
+                self.fit = k2.HistFit(c, self.fn, cost_function=cost, bin_evaluation=ref.normal_cdf, dynamic_error_algorithm=self.dea, **kw)
             elif self.ftype == "unbinned":
                 self.fn = ref.normal_density
                 self.fit = k2.UnbinnedFit(y, self.fn, cost_function=self.cost_id, **kw)
